@@ -10,6 +10,7 @@ ENG = {
     "poolfuzz": {"name": "poolfuzz", "sources": ["poolfuzz.c"]},
     "rngdet": {"name": "rngdet", "sources": ["rngdet.c"]},
     "rngsamp": {"name": "rngsamp", "sources": ["rngsamp.c"]},
+    "expcheck": {"name": "expcheck", "sources": ["expcheck.c"]},
     "evfuzz": {"name": "evfuzz", "sources": ["evfuzz.c"]},
     "corofuzz": {"name": "corofuzz", "sources": ["corofuzz.c", "probe.S"]},
     "statcheck": {"name": "statcheck", "sources": ["statcheck.c"], "extra_ldflags": "-lquadmath"},
@@ -48,6 +49,26 @@ PROPS["C02"] = {
                     "default order) accept any tied minimum"],
 }
 
+PROPS["C19"] = {
+    "engines": ENG,
+    "jobs": [
+        J("exp-rel", "expcheck", "rel", 0, 40, 2000, timeout=300, chunk=4),
+        J("exp-tsan", "expcheck", "tsan", 1, 12, 300, timeout=600, chunk=2),
+    ],
+    "rule": ("one case = one experiment: trial count in {1,2,15,16,17,64,200,1000}, element size in {8,24,72,4096,9,13,100}, duration mix "
+             "(all short / wide spread / one very long first), trial body = seeded simulation (3-10 processes, resource, pool, buffer, "
+             "condition with timeout, interrupts, 12 samplers incl. flip/gamma/geometric caches, resource history summarised), preceded by "
+             "a pollution step keyed on the worker thread id and call count (RNG caches left half-consumed, logger mask flipped, heap "
+             "scrambled, tag pools grown); after cimba_run_experiment returns: execution count == 1 and own-element tag for every trial, "
+             "no foreign pointer, and every result byte (trace hash, event count, 4 doubles) equal to the sequential run of the same "
+             "trials in the main thread (run before or after); distinct = fingerprint of (count, size, mix, trial->worker assignment)"),
+    "headline": ["experiments", "trials", "simulated_process_steps", "experiments_on_multiple_workers", "max_workers_used",
+                 "max_trials_on_one_worker", "experiments_fewer_trials_than_cores", "experiments_trials_equal_cores", "experiments_more_trials_than_cores"],
+    "min_observed": {"quick": {"experiments": 40, "trials": 1000, "experiments_on_multiple_workers": 20}},
+    "assumptions": ["trial functions seed the generator from their own parameters (as the property states)",
+                    "schedules are sampled by repetition; the assignment fingerprint shows how many distinct trial->worker maps were seen",
+                    "TSan build: any ThreadSanitizer report in a child is a violation"],
+}
 PROPS["C20"] = {
     "engines": ENG,
     "jobs": [
@@ -211,6 +232,14 @@ MANIFEST_TEXT = {
                  "unique and non-zero; ASan/UBSan build re-runs a slice of the same corpus."),
         "technique": "runtime monitoring: randomized operation-history differential vs reference model + structural invariant walker, also under ASan/UBSan",
         "design_ref": "DESIGN.md 4/C02",
+    },
+    "C19": {
+        "level": ("Exploration of thread schedules by repetition: the real experiment runner against a sequential reference of the same "
+                  "seeded trials with deliberately different per-worker residue; exactly-once counters; ThreadSanitizer build; held on "
+                  "the experiments and schedules that occurred (distinct assignments counted)."),
+        "note": "Schedules are whatever the OS produced on 16 cores; pollution and heap scrambling make leftover state differ between the compared runs.",
+        "technique": "runtime monitoring: parallel-vs-sequential differential with bitwise oracle, exactly-once counters, state pollution, ThreadSanitizer",
+        "design_ref": "DESIGN.md 4/C19",
     },
     "C20": {
         "level": ("Exploration of allocation histories on the real pool code with a shadow map (alignment, disjointness, chunk "
